@@ -232,4 +232,24 @@ theorem exampleIrr_B_fixedpoint :
       readSlp T0 { skipFrames := false, computeHash := false } y = .ok g :=
   _root_.Peppi.exampleIrr_B_fixedpoint 
 
+/- from `Peppi.Lemmas.GenInst` -/
+open Extracted in
+theorem canonUpToOrder_run {T : TextOracle} {r : Replay} {s : Start} {gk : Option GeckoBlocks} (h : r.WFAny T s gk) (st : PState)
+    (hst : st.start = s) (hfr : st.frames = FCols.new s.version (portOccupancy s)) (hpi : st.portIdx = portIdxOf (portOccupancy s))
+    (es : List (Nat × Bytes)) (hc : CanonUpToOrder s r es) :
+    (∃ st', runEvents st es = .ok st' ∧ st'.ctx = st.ctx ∧ st'.fend = st.fend ∧
+      st'.gecko = st.gecko ∧ st'.metadata = st.metadata ∧ st'.doubleGameEnd = st.doubleGameEnd ∧
+      (if s.version.lt 3 0 then st'.frames.close else st'.frames) = expFrames s.version (portOccupancy s) r.frames) ∧
+    (∀ e ∈ es, e.1 ≠ EV_SPLITTER ∧ e.1 ≠ EV_GAME_END) :=
+  _root_.Peppi.canonUpToOrder_run h st hst hfr hpi es hc
+
+/- from `Peppi.Lemmas.GenExample` -/
+open Extracted in
+theorem exampleIrr_P :
+    let r := exReplay (exBlock 3 16 760) (exFrames [-123, -122, -122] 17 32 2 16 1 true) [2, 255, 0, 1, 255, 255]
+    let s := startOf (exBlock 3 16 760)
+    let es := (r.frames.map fun o => (o, itemsFirst o)).flatMap fun ob => frameEventsP s.version (portOccupancy s) ob.1 ob.2
+    ({ table := canonTableAny s.version 760 6 none ++ [(0x50, 3), (0x51, 1)], mixed := spliceUnknown es, junk := [] } : Irr).OK T0 r s none :=
+  _root_.Peppi.exampleIrr_P 
+
 end Peppi.Props.C17
